@@ -4,6 +4,7 @@ package rag
 
 import (
 	"encoding/csv"
+	"strconv"
 	"strings"
 )
 
@@ -16,7 +17,7 @@ func vCRLFNorm(s string) string { // an RFC 4180 reader reports CRLF inside a qu
 // H_C14_csv_roundtrip: CSV and TSV exports parse back, with a standard CSV reader, to one record per chunk in order with the same id and text.
 //
 //symgo:harness prop=C14 kernel=K1-csv-tsv
-//symgo:desc 1..2 chunks; format CSV or TSV, header row on/off (enumerated); one cell (the text or the id of chunk 0, enumerated) holds 0..2 quick / 0..3 thorough symbolic bytes over {comma, tab, quote, CR, LF, NUL, 'a', 0xC3, 0xA9, ';'}, the other cells concrete adversarial strings; read back by the interpreted encoding/csv.Reader with the same delimiter (LazyQuotes off): record count, header = column list, id and text cells equal (CRLF->LF inside quoted fields allowed)
+//symgo:desc 1..2 chunks; format CSV or TSV, header row on/off (enumerated); one cell (the text or the id of chunk 0, enumerated) holds 0..2 quick / 0..3 thorough symbolic bytes over {comma, tab, quote, CR, LF, NUL, 'a', 0xC3, 0xA9, ';'}, the other cells concrete adversarial strings; read back by the interpreted encoding/csv.Reader with the same delimiter (LazyQuotes off): record count, header = column list, id and text cells equal (CRLF->LF inside quoted fields allowed), and the chunk_index / page_start / page_end cells are the chunk's own metadata values (which differ from its position in the exported slice)
 func H_C14_csv_roundtrip() {
 	maxN := 2
 	if vTier() > 0 {
@@ -35,7 +36,9 @@ func H_C14_csv_roundtrip() {
 	which := vAnyIntIn(0, 1)
 	chunks := make([]*Chunk, n)
 	for i := range chunks {
-		chunks[i] = &Chunk{ID: "id" + string(rune('0'+i)), Text: "t,\"x\"\n" + string(rune('0'+i)), Metadata: ChunkMetadata{ChunkIndex: i, SectionTitle: "s\t1"}}
+		// the chunk's own index and page span are not its position in the exported slice (filtered or batched collections)
+		chunks[i] = &Chunk{ID: "id" + string(rune('0'+i)), Text: "t,\"x\"\n" + string(rune('0'+i)),
+			Metadata: ChunkMetadata{ChunkIndex: 10*(i+1) + vAnyIntIn(0, 1), PageStart: 3 + i, PageEnd: 4 + 2*i, SectionTitle: "s\t1"}}
 	}
 	if which == 0 {
 		chunks[0].Text = sym
@@ -60,6 +63,13 @@ func H_C14_csv_roundtrip() {
 		vAssert("record-width", len(rec) >= 2)
 		vAssert("id-cell", rec[0] == vCRLFNorm(chunks[i].ID))
 		vAssert("text-cell", rec[1] == vCRLFNorm(chunks[i].Text))
+		vAssert("positional-columns-present", len(rec) >= 6)
+		vAssert("chunk-index-cell-is-the-chunks-own-index", rec[2] == strconv.Itoa(chunks[i].Metadata.ChunkIndex))
+		vAssert("page-start-cell", rec[4] == strconv.Itoa(chunks[i].Metadata.PageStart))
+		vAssert("page-end-cell", rec[5] == strconv.Itoa(chunks[i].Metadata.PageEnd))
+	}
+	if cfg.IncludeHeader {
+		vAssert("positional-header-names", len(recs[0]) >= 6 && recs[0][2] == "chunk_index" && recs[0][4] == "page_start" && recs[0][5] == "page_end")
 	}
 	vReach("end")
 }
